@@ -769,6 +769,108 @@ func c03F70Prefix(r *vg.Rand, state sm.State, pvs []types.MockPV, net *c01Net) b
 		hD.cs.LockedRound == 1 && hD.cs.LockedBlock != nil && hD.cs.LockedBlock.HashesTo(bY.Hash)
 }
 
+// c03SkipPrefix: the directed asynchronous prefix of seeded change C03f (4 equal validators; with
+// the rotation q of height 1: F = q[0] faulty, C = q[1], D = q[2], A = q[3] correct).  F, the
+// proposer of round 0, proposes nothing.  C and D prevote and precommit nil in round 0 and move to
+// round 1, where C proposes Y, D misses it, nobody sees a polka and both precommit nil; F
+// precommits Y.  A, still in round 0, is given exactly these three round-1 precommits: +2/3 of
+// ANY precommits without a majority, and no +2/3 prevotes of round 1.  A must enter round 1 (and
+// wait there for the stragglers) - entering the round is what advances its proposer rotation.  A
+// node that only waits reaches round 2 through the timeout with its rotation one step behind for
+// the rest of the height, refuses every rightful proposal and, with F silent, nobody decides.
+// A's precommit-wait timeout of round 1 then fires before anything else reaches it.
+// Returns whether A holds the three precommits and reached round 2.
+func c03SkipPrefix(r *vg.Rand, state sm.State, pvs []types.MockPV, net *c01Net) bool {
+	q := c01Rotation(state, 4)
+	F, C, D, A := q[0], q[1], q[2], q[3]
+	nodeOf := map[int]*c02Harness{}
+	for _, h := range net.nodes {
+		nodeOf[h.me] = h
+	}
+	hA, hC, hD := nodeOf[A], nodeOf[C], nodeOf[D]
+	if hA == nil || hC == nil || hD == nil {
+		return false
+	}
+	fpeer := p2p.ID(fmt.Sprintf("p%d", F+1))
+	dl := func(h *c02Harness, mi msgInfo) {
+		h.got = append(h.got, mi)
+		tm, d := h.inputTerm(mi)
+		h.deliver(tm, d, func() { h.cs.handleMsg(mi) })
+	}
+	pull := func(h *c02Harness, pred func(mi msgInfo) bool) {
+		for {
+			idx := -1
+			for i, mi := range net.inbox[h] {
+				if pred(mi) {
+					idx = i
+					break
+				}
+			}
+			if idx < 0 {
+				return
+			}
+			mi := net.inbox[h][idx]
+			net.inbox[h] = append(net.inbox[h][:idx:idx], net.inbox[h][idx+1:]...)
+			dl(h, mi)
+		}
+	}
+	votes := func(ty tmproto.SignedMsgType, round int32, from ...int) func(msgInfo) bool {
+		return func(mi msgInfo) bool { return isVote(mi, ty, round, setOf(from)) }
+	}
+	fire := func(h *c02Harness, step cstypes.RoundStepType) {
+		s := h.ticker.scheduled
+		for i := len(s) - 1; i >= 0; i-- {
+			if s[i].Height == h.cs.Height && s[i].Round == h.cs.Round && s[i].Step == step {
+				h.fire(s[i], "timeout")
+				return
+			}
+		}
+	}
+	fVote := func(ty tmproto.SignedMsgType, round int32, bid types.BlockID) {
+		net.publish(nil, msgInfo{&VoteMessage{hA.mkVote(r, F, ty, 1, round, bid)}, fpeer})
+	}
+	PV, PC := tmproto.PrevoteType, tmproto.PrecommitType
+	// round 0: no proposal; everybody prevotes nil; C and D precommit nil and, with F's nil
+	// precommit, leave the round.  A sees none of it.
+	for _, h := range []*c02Harness{hA, hC, hD} {
+		fire(h, cstypes.RoundStepNewHeight)
+		fire(h, cstypes.RoundStepPropose)
+	}
+	pull(hC, votes(PV, 0, D, A))
+	pull(hD, votes(PV, 0, C, A))
+	fVote(PC, 0, types.BlockID{})
+	pull(hC, votes(PC, 0, D, F))
+	fire(hC, cstypes.RoundStepPrecommitWait) // C enters round 1 and proposes Y
+	pull(hD, votes(PC, 0, C, F))
+	fire(hD, cstypes.RoundStepPrecommitWait)
+	if hC.cs.ProposalBlock == nil || hC.cs.Round != 1 || hD.cs.Round != 1 {
+		return false
+	}
+	bY := types.BlockID{Hash: hC.cs.ProposalBlock.Hash(), PartSetHeader: hC.cs.ProposalBlockParts.Header()}
+	// round 1: D misses the proposal; no polka; C and D precommit nil, F precommits Y
+	fire(hD, cstypes.RoundStepPropose)
+	fVote(PV, 1, types.BlockID{})
+	pull(hC, votes(PV, 1, D, F))
+	fire(hC, cstypes.RoundStepPrevoteWait)
+	pull(hD, votes(PV, 1, C, F))
+	fire(hD, cstypes.RoundStepPrevoteWait)
+	fVote(PC, 1, bY)
+	// A, in round 0, learns of round 1 only through these three precommits
+	pull(hA, votes(PC, 1, C, D, F))
+	pcs := hA.cs.Votes.Precommits(1)
+	ok := pcs != nil && pcs.HasTwoThirdsAny() && hA.cs.LockedBlock == nil
+	// ... and A's precommit-wait timeout of round 1 fires before anything else reaches it (the
+	// network is still asynchronous): A precommits nil in round 1 and enters round 2
+	sch := hA.ticker.scheduled
+	for i := len(sch) - 1; i >= 0; i-- {
+		if sch[i].Height == 1 && sch[i].Round == 1 && sch[i].Step == cstypes.RoundStepPrecommitWait {
+			hA.fire(sch[i], "timeout")
+			break
+		}
+	}
+	return ok && hA.cs.Round == 2
+}
+
 // c03F83Prefix: the directed asynchronous prefix of finding F83 (4 equal validators; with the
 // rotation q of height 1: B = q[0], C = q[1] correct, D = q[2] faulty, A = q[3] correct).  D
 // equivocates in prevotes, tells different nodes different things, relays B's and C's genuine votes
@@ -960,10 +1062,11 @@ func c03Run(r *vg.Rand, k int) (term, descr string, allDecided bool, kind string
 	scripted := k%4 == 3
 	directed := k%20 == 9    // the directed scenario of finding F70 (a lock carried past the polka that releases it)
 	directed83 := k%20 == 19 // the directed scenario of finding F83 (a re-lock that leaves a stale valid block)
+	directedSkip := k%20 == 14 // the directed scenario of seeded change C03f (a later round learned through split precommits)
 	if directed83 {
 		scripted = false
 	}
-	if scripted || directed || directed83 {
+	if scripted || directed || directed83 || directedSkip {
 		nv = 4
 	}
 	powers := make([]int64, nv)
@@ -981,6 +1084,9 @@ func c03Run(r *vg.Rand, k int) (term, descr string, allDecided bool, kind string
 	} else if directed83 {
 		net.faulty = []int{c01Rotation(state, 4)[2]}
 		opName = "f83-relock-with-stale-valid-block"
+	} else if directedSkip {
+		net.faulty = []int{c01Rotation(state, 4)[0]}
+		opName = "c03f-later-round-learned-through-split-precommits"
 	} else if scripted {
 		var f int
 		f, opening, opName = c01Opening(r, c01Rotation(state, 4), (k/4)%4)
@@ -1020,6 +1126,9 @@ func c03Run(r *vg.Rand, k int) (term, descr string, allDecided bool, kind string
 	} else if directed83 {
 		directedOK = c03F83Prefix(r, state, pvs, net)
 		prefix = 0
+	} else if directedSkip {
+		directedOK = c03SkipPrefix(r, state, pvs, net)
+		prefix = 0
 	} else if scripted {
 		c01RoundsRun(r, net, pvs, opening, len(opening)+r.Intn(3))
 		prefix = 0
@@ -1058,7 +1167,7 @@ func c03Run(r *vg.Rand, k int) (term, descr string, allDecided bool, kind string
 	if scripted && r.Bool() { // the faulty validators fall silent: termination must not depend on their help
 		syncByz = 0
 	}
-	if directed || directed83 { // the faulty validator is silent from now on
+	if directed || directed83 || directedSkip { // the faulty validator is silent from now on
 		syncByz = 0
 	}
 	c03Sync(r, net, pvs, h0, bound+2, syncByz)
@@ -1140,6 +1249,10 @@ func c03Run(r *vg.Rand, k int) (term, descr string, allDecided bool, kind string
 	if directed83 {
 		kind = "directed-" + opName + "/" + kind
 		fmt.Fprintf(&d, " prefix: DIRECTED scenario %q (finding F83; A in round 7 locked on X since round 6, B and C unlocked: %v): B proposes X in round 0, only A sees the polka (A, B, D) and locks X; C proposes Y in round 1, A prevotes X, B and C see the polka for Y after their nil precommit (valid block Y); D re-proposes (Y, POL round 1) in round 2, A - still in round 1 - receives the three round-2 prevotes for Y (carried to round 2) and then the proposal whose POL it does not hold (ValidBlock Y, step Propose, still locked on X); rounds 3..5 form nothing; D proposes (X, POL round 0) in round 6, B and C prevote X and D tells them nil, A receives the three round-6 prevotes for X (carried to round 6) and the +2/3 precommits for nil: enterPrecommit re-locks X with LockedRound 6; from then on D is silent and every message is delivered;", opName, directedOK)
+	}
+	if directedSkip {
+		kind = "directed-" + opName + "/" + kind
+		fmt.Fprintf(&d, " prefix: DIRECTED scenario %q (seeded change C03f; A holds +2/3-any round-1 precommits without a majority: %v): F (proposer of round 0) proposes nothing, everybody prevotes nil, C and D precommit nil and leave round 0 on the nil precommits of C, D, F; C proposes Y in round 1, D misses it, no polka, C and D precommit nil, F precommits Y; A - still in round 0, having seen no round-1 prevote - receives these three round-1 precommits and its precommit-wait timeout of round 1 fires (A enters round 2); from then on F is silent and every message is delivered;", opName, directedOK)
 	}
 	return term, d.String(), allDecided, kind
 }
